@@ -1335,10 +1335,30 @@ std::ostream& expression_t::print(std::ostream& os, bool old) const
         }
         break;
 
-    case ARRAY:
+    case ARRAY: {
+        // A member of a process set is stored as indexing into the set (R(1, 2) is ARRAY(ARRAY(R, 1), 2)),
+        // but it is written, and can only be parsed, as a call.
+        expression_t base = *this;
+        std::vector<expression_t> indices;
+        while (base.get_kind() == ARRAY) {
+            indices.push_back(base.get(1));
+            base = base.get(0);
+        }
+        if (base.get_kind() == IDENTIFIER && base.get_symbol() != symbol_t() &&
+            base.get_symbol().get_type().is(PROCESS_SET)) {
+            os << base.get_symbol().get_name() << '(';
+            for (auto it = indices.rbegin(); it != indices.rend(); ++it) {
+                if (it != indices.rbegin())
+                    os << ", ";
+                it->print(os, old);
+            }
+            os << ')';
+            break;
+        }
         embrace_strict(os, old, get(0), precedence);
         get(1).print(os << '[', old) << ']';
         break;
+    }
 
     case UNARY_MINUS:
         // a negative literal (the parser produces one for -2147483648) must not fuse with the sign into "--"
